@@ -1119,6 +1119,11 @@ func TestCheck(t *testing.T) {
 		}
 	}
 
+	// harness self-check: the component stage groups of later_test.go compile and run
+	if err := componentSelfCheck(); err != nil {
+		t.Fatalf("harness: component stages: %v", err)
+	}
+
 	// harness self-check: every scenario offers a Compile with the options of its first Compile
 	for si := range scenarios {
 		for init := 0; init < scenarios[si].nInit; init++ {
@@ -1292,6 +1297,24 @@ func TestCheck(t *testing.T) {
 		rep.Require("rule/"+r, 10)
 	}
 	rep.Require("rule-in-nested-graph/unknown-interrupt-node", 5)
+	// builder calls after an earlier Compile (later_test.go)
+	rep.Require("later_cases", 500)
+	for _, fe := range []string{"chain", "workflow", "graph"} {
+		rep.Require("later_compile_after_failed_compile/"+fe, 50)
+		rep.Require("later_compile_after_calls_on_a_compiled_builder/"+fe, 30)
+		rep.Require("later_runnable_compared_with_flat_construction/"+fe, 10)
+	}
+	for _, n := range []string{"chain-AppendLambda", "chain-AppendPassthrough", "chain-AppendGraph", "chain-AppendParallel", "chain-AppendBranch",
+		"workflow-AddLambdaNode", "workflow-AddPassthroughNode", "workflow-AddGraphNode", "workflow-AddBranch", "workflow-WorkflowNode.AddInput",
+		"workflow-WorkflowNode.AddDependency", "workflow-WorkflowNode.SetStaticValue", "workflow-End.AddInput",
+		"graph-AddLambdaNode", "graph-AddEdge", "graph-AddBranch", "graph-AddGraphNode"} {
+		rep.Require("later_calls_after_failed_compile/"+n, 5)
+		rep.Require("later_calls_after_successful_compile/"+n, 5)
+	}
+	rep.Require("later_modification_of_compiled_builder_reported_by_compile", 100)
+	rep.Require("later_chain_extension_after_failed_compile_reported", 20)
+	rep.Require("later_with/static-value", 20)
+	rep.Require("later_with/component-stages", 10)
 	for _, r := range []string{"reserved-key", "duplicate-key", "unknown-node", "duplicate-edge", "edge-from-end", "edge-to-start", "no-entry-edge", "no-exit-edge",
 		"uninferred-passthrough", "cycle-in-all-predecessor-mode", "single-target-branch", "state-handler-without-state", "handler-state-type", "handler-value-type",
 		"passthrough-handler-not-any", "node-key-option-outside-chain", "type-mismatch", "trigger-mode-on-chain-or-workflow", "max-steps-in-all-predecessor-mode",
